@@ -343,3 +343,7 @@ pub(crate) fn parse_f64(v: &str) -> Option<f64> {
         _ => v.parse::<f64>().ok(),
     }
 }
+
+#[cfg(kani)]
+#[path = "/verif/kani/direct/loader_harness.rs"]
+pub(crate) mod verif_harness;
